@@ -20,6 +20,8 @@ Definition N := NumB.
 Definition T := NumTB.
 Definition atol : bf := %(atol)s.
 Definition rtol : bf := %(rtol)s.
+Definition fixed : bool := %(fixed)s.     (* polyroots de-duplication variant of the tree under test (probed) *)
+Definition stable : bool := %(stable)s.   (* bezier_real_minmax closed-form variant of the tree under test (probed) *)
 Definition box : Type := (bf * bf * bf * bf)%%type.
 Definition boxclose (tol : bf) (a b : box) : bool :=
   let '(a1, a2, a3, a4) := a in let '(b1, b2, b3, b4) := b in
@@ -36,15 +38,45 @@ Inductive ccase : Type :=
 Definition ok (c : ccase) : nat :=
   match c with
   | CLine s e bx => first_fail [(boxeq bx (line_bbox N s e), 1)]
-  | CQuad p0 p1 p2 rx ry tol bx => first_fail [(boxclose tol bx (quad_bbox N atol rtol p0 p1 p2 rx ry), 2)]
+  | CQuad p0 p1 p2 rx ry tol bx => first_fail [(boxclose tol bx (quad_bbox N fixed atol rtol p0 p1 p2 rx ry), 2)]
   | CCubic p0 p1 p2 p3 rx ry tol bx =>
-      first_fail [(boxclose tol bx (cubic_bbox N T atol rtol p0 p1 p2 p3 rx ry), 3)]
+      first_fail [(boxclose tol bx (cubic_bbox N T stable fixed atol rtol p0 p1 p2 p3 rx ry), 3)]
   | CArc A tol bx => first_fail [(boxclose tol bx (arc_bbox N T A), 4)]
   | CPath bbs bx => first_fail [(boxeq bx (path_bbox N bbs), 5)]
   end.
 '''
 OBS = {1: 'Line.bbox vs model (exact)', 2: 'QuadraticBezier.bbox vs model', 3: 'CubicBezier.bbox vs model',
        4: 'Arc.bbox vs model', 5: 'Path.bbox vs component-wise min/max of the segment boxes (exact)'}
+
+
+# ------------------------------------------------------- variant probing
+def probe_polyroots_fixed():
+    """which de-duplication loop does polytools.polyroots run?  Five sorted roots with a close pair at
+    positions (1,2): the pinned loop (pair index used as root index) returns [.9,.6,.600001,.4], the repaired
+    one (drop the later root of a close pair) [.9,.6,.4,.2].  Anything else is compared with the pinned model."""
+    import numpy as np
+    import svgpathtools.polytools as pt
+    orig = pt.np.roots
+    try:
+        pt.np.roots = lambda p: np.array([0.9, 0.6, 0.600001, 0.4, 0.2])
+        out = [float(x) for x in pt.polyroots01([1, 0, 0, 0, 0, 0])]
+    except Exception:
+        out = None
+    finally:
+        pt.np.roots = orig
+    return out == [0.9, 0.6, 0.4, 0.2]
+
+
+def probe_minmax_stable():
+    """which closed form does bezier_real_minmax evaluate?  Control values with cubic coefficient -6e-13:
+    (tau -+ sqrt(delta))/denom cancels and yields max 18.67975; the cancellation-free form gives the true
+    maximum 18.68000.  Anything else is compared with the pinned model."""
+    from svgpathtools.bezier import bezier_real_minmax
+    try:
+        mn, mx = bezier_real_minmax([complex(v) for v in (-16.0, 18.0, 27.0, 11.000000000000313)])
+        return abs(float(mx) - 18.68) < 1e-9
+    except Exception:
+        return False
 
 
 # ------------------------------------------------------------------ oracle
@@ -416,6 +448,9 @@ def run(rep, tier, seed, replay=None):
     import inspect
     sig = inspect.signature(mt.isclose)
     atol, rtol = sig.parameters['atol'].default, sig.parameters['rtol'].default
+    fixed, stable = probe_polyroots_fixed(), probe_minmax_stable()
+    rep.cov['variant'] = {'polyroots_dedup': 'repaired (fixed=true)' if fixed else 'pinned (fixed=false)',
+                          'bezier_real_minmax_closed_form': 'repaired (stable=true)' if stable else 'pinned (stable=false)'}
     rng = common.mkrng(seed, 'C08')
     with common.Scratch() as tmp:
         info = common.std_static(rep, 'C08', GEN_GROUPS, AGREE, tmp)
@@ -487,7 +522,7 @@ def run(rep, tier, seed, replay=None):
             evaluations += 1
             if box[0] < box[1] or box[2] < box[3]:
                 nontrivial.add(json.dumps(sercase, sort_keys=True))
-        okdef = OKDEF % {'atol': bf(atol), 'rtol': bf(rtol)}
+        okdef = OKDEF % {'atol': bf(atol), 'rtol': bf(rtol), 'fixed': common.coq_bool(fixed), 'stable': common.coq_bool(stable)}
         fails, errors = common.run_cases(tmp, 'From SVP Require Import Base.BigF.\n', 'ccase', okdef, cases, shard=40)
         for e in errors:
             rep.violation('correspondence case file failed to evaluate', {'kind': 'cases', 'error': e},
@@ -502,7 +537,7 @@ def run(rep, tier, seed, replay=None):
             if res is not None:
                 what, detail = res
                 key = 'bbox-%s-%s' % (what, kind)
-                if has_tiny_denom(sercase):
+                if has_tiny_denom(sercase) and not stable:      # the pinned closed form only
                     key = 'bbox-cubic-tiny-denom-cancellation'
                 elif arc_endpoint_mismatch(segs, size):
                     key = 'bbox-arc-endpoint-mismatch'
@@ -513,7 +548,7 @@ def run(rep, tier, seed, replay=None):
                               key=key)
             elif i in failed_idx:
                 key = 'corr-%s' % kind
-                if has_tiny_denom(sercase):
+                if has_tiny_denom(sercase) and not stable:
                     key = 'bbox-cubic-tiny-denom-cancellation'
                 vkeys[key] = vkeys.get(key, 0) + 1
                 rep.violation('C08: %s (difference above 1e-9*size although 257 samples are inside and the sides '
